@@ -583,4 +583,87 @@ theorem copy_shares_storage_counterexample :
       some (.table [[.int 3, .str [119]], [.int 2, .str [120]], [.int 1, .str [121]], [.int 1, .str [122]]] [0, 1] [0]) := by
   decide +kernel
 
+
+/-! ## Phase 4: several live objects (views / copies of one storage), each with its own `_lohis` cache -/
+
+/-- **one step of the machine with caches keeps the invariant of every fresh live object**: `stepC` runs
+`insert` / `index` / `where` / `groupby` / `copy` / listing through ANY of the live objects; each object
+carries its own memoised `_lohis` (`None` / `{}` / dict; `where` and `groupby` fill it, `insert` resets it,
+`index` recomputes it, `copy` hands it on). `Good cfg o`: if no OTHER object has mutated the shared lists since
+`o` was made (`o.fresh`), `o.t` satisfies `Inv` and a truthy cache equals `_calc_lohis()` of the table now.
+Operations on stale objects need no side condition and claim nothing (findings C17-F19/F20). -/
+theorem multi_inv_step (cfg : Cfg) (hfix : cfg.resortInsert = true) (os : List (Option CObj)) (op : TOp)
+    (hg : AllGood cfg os) (hok : opOKC cfg os op = true) : AllGood cfg (stepC cfg os op).1 :=
+  multi_inv_step' cfg hfix os op hg hok
+
+/-- … hence in every state any interleaved history over several objects reaches -/
+theorem multi_inv_reachable (cfg : Cfg) (hfix : cfg.resortInsert = true) (os : List (Option CObj)) (ops : List TOp)
+    (hg : AllGood cfg os) (hok : OKC cfg os ops = true) : AllGood cfg (finalC cfg os ops) :=
+  multi_inv_reachable' cfg hfix os ops hg hok
+
+/-- **indexed query = full scan for every live object after every history over several objects**: start
+from one table, run any interleaving of inserts / index / where / where-of-where / groupby / copy through
+any of the objects made on the way (`OKC`: the data-only side conditions of `opOK`, asked only of operations
+on fresh objects). Then every live object `o` that no other object has mutated under answers `where(**kws)`
+— computed with the lohis it has CACHED (`effLohis`, `pwhereWith`) — with exactly the rows of the plain
+row-by-row filter of what it shows. -/
+theorem where_every_live_object (cfg : Cfg) (hfix : cfg.resortInsert = true) (init : Init) (ops : List TOp)
+    (hinv : Inv init.table) (hok : OKC cfg (initC init) ops = true)
+    (o : CObj) (hlive : some o ∈ finalC cfg (initC init) ops) (hfresh : o.fresh = true)
+    (pos : Option Op) (kws : List (Nat × Arg)) (R rs : List (List Cell)) (hw : whereOK cfg o.t pos kws = true)
+    (hR : o.t.rows = .ok R) (hspec : whereS { columns := o.t.columns, rows := R } (kws.map (condOf pos)) = .ok rs) :
+    ∃ l t', effLohis cfg o.t o.cache = .ok l ∧ o.t.pwhereWith cfg l pos kws = .ok t' ∧ t'.rows = .ok rs ∧
+      t'.columns = o.t.columns ∧ t'.indexes = o.t.indexes :=
+  where_every_live_object' cfg hfix init ops hinv hok o hlive hfresh pos kws R rs hw hR hspec
+
+/-- a history over three objects (table, its copy, a view of the copy; insert through the copy, queries
+through all) meets `OKC`, and the copy and the view are fresh at the end while the original is stale -/
+example : OKC Cfg.fixed (initC (.columns [0, 1]))
+    [.insert 0 (.rows [[.int 2, .str [120]], [.int 1, .str [121]]]), .index 0 [0], .whr 0 Option.none Option.none [(0, .val (.scalar (.int 1)))],
+     .copy 0, .insert 2 (.rows [[.int 0, .str [122]]]), .whr 2 Option.none (some .le) [(0, .val (.scalar (.int 1)))],
+     .groupby 2 0 .count, .whr 3 Option.none Option.none [(1, .val (.scalar (.str [122])))]] = true ∧
+    (finalC Cfg.fixed (initC (.columns [0, 1]))
+    [.insert 0 (.rows [[.int 2, .str [120]], [.int 1, .str [121]]]), .index 0 [0], .whr 0 Option.none Option.none [(0, .val (.scalar (.int 1)))],
+     .copy 0, .insert 2 (.rows [[.int 0, .str [122]]]), .whr 2 Option.none (some .le) [(0, .val (.scalar (.int 1)))],
+     .groupby 2 0 .count, .whr 3 Option.none Option.none [(1, .val (.scalar (.str [122])))]]).map (fun o => o.map (·.fresh)) =
+      [some false, some false, some true, some true, some true] := by decide +kernel
+
+/-- queries through a coherent cache are the queries of the cache-free model every earlier theorem is about -/
+theorem cached_query_eq (cfg : Cfg) (t : Table) (c : Option Lohis) (hc : Coh cfg t c) (l : Lohis)
+    (hl : effLohis cfg t c = .ok l) (pos : Option Op) (kws : List (Nat × Arg)) (level : Nat) (select : Select) :
+    t.pwhereWith cfg l pos kws = t.pwhere cfg Option.none pos kws ∧ t.groupbyWith l level select = t.groupby cfg level select :=
+  cached_query_eq' cfg t c hc l hl pos kws level select
+
+/-- (every tree) a stale cache answers wrongly — C17-F20 inside the machine with caches: the copy inserts
+`[0]`,`[5]`... here: `t` indexed by a, queried (cache filled), copy, insert through the copy; the original's
+cached lohis do not cover the new row, `t.where(a=5)` finds nothing although `t` shows the row -/
+theorem stale_cache_counterexample :
+    (runC Cfg.fixed (.columns [0])
+      [.insert 0 (.rows [[.int 1], [.int 2]]), .index 0 [0], .copy 0, .insert 1 (.rows [[.int 5]]),
+       .peek 0, .whr 0 Option.none Option.none [(0, .val (.scalar (.int 5)))]]).drop 5 =
+      [.table [[.int 1], [.int 2], [.int 5]] [0] [0], .table [] [0] [0]] := by decide +kernel
+
+/-! ## Phase 4: the operator table is the source's -/
+
+/-- **translator obligation**: the operator set of `where(comparison=Literal[…])`, the keys `_compare`
+unpacks from `{op: value}`, the operators `where` never bisects (`match`), and for every operator block of
+`_compare` the `my_bisect_left/right` calls of its bisect branch, the cell comparison of its scan branch
+and the `c is not None` guard — as extracted from coba/results/core.py by `pre_build` (Python `ast`) into
+`Generated/C17Ops.lean` on every run — are the model's operator table. -/
+theorem ops_table_eq_source :
+    Coba.Generated.C17.extracted = true ∧
+    Coba.Generated.C17.whereLiteral = Op.all.map Op.sym ∧
+    Coba.Generated.C17.unpackKeys = Op.all.map Op.sym ∧
+    Coba.Generated.C17.noBisectOps = [Op.sym .mtch] ∧
+    Coba.Generated.C17.compareTable = opTable :=
+  ops_table_eq_source'
+
+/-- the bisect calls `opTable` lists for `<`, `<=`, `>=`, `>` are the ones the model's `_compare` makes -/
+theorem opTable_bisect_calls (cfg : Cfg) (s : Seq) (lo hi : Nat) (v : Cell) :
+    compareBisect cfg s lo hi .lt (.scalar v) = (myBisectLeft cfg s v lo hi).map (fun l => [(lo, l)]) ∧
+    compareBisect cfg s lo hi .le (.scalar v) = (myBisectRight cfg s v lo hi).map (fun h => [(lo, h)]) ∧
+    compareBisect cfg s lo hi .ge (.scalar v) = (myBisectLeft cfg s v lo hi).map (fun l => [(l, hi)]) ∧
+    compareBisect cfg s lo hi .gt (.scalar v) = (myBisectRight cfg s v lo hi).map (fun h => [(h, hi)]) :=
+  opTable_bisect_calls' cfg s lo hi v
+
 end Coba.C17
